@@ -486,8 +486,14 @@ func newAPIWorld(t *testing.T, sim *verifsim.Sim, prop string, gpu apiGPU, maxRu
 		panic(err)
 	}
 	w.h = h
+	if verifKeepRouterPool != nil {
+		verifKeepRouterPool(h)
+	}
 	return w
 }
+
+// verifKeepRouterPool is set by the race build (zz_verif_racepool_test.go).
+var verifKeepRouterPool func(h http.Handler)
 
 //go:norace
 func (w *apiWorld) gpuList() discover.GpuInfoList {
